@@ -128,17 +128,18 @@ def case_render(case):
     data, exp = make_molecule(rng)
     tclass = str(rng.choice(["default", "random", "random_subset"], p=[0.4, 0.3, 0.3]))
     overrides = {}
-    for name, val in (("lot", "MYLOT"), ("obasis_name", "MYBASIS"), ("title", "user title"), ("charge", 7), ("spinmult", 9),
-                      ("run_type", "MYRUN")):
+    # user values of every kind, including falsy ones (0, ""): precedence does not depend on the value
+    for name, vals in (("lot", ["MYLOT"]), ("obasis_name", ["MYBASIS"]), ("title", ["user title", ""]), ("charge", [7, 0, -2]),
+                       ("spinmult", [9, 1]), ("run_type", ["MYRUN"])):
         if rng.random() < 0.15:
-            overrides[name] = val
+            overrides[name] = vals[int(rng.integers(len(vals)))]
     extra_kw = {}
     template = None
     order = None
     if tclass != "default":
         use = [f for f in FIELDS if tclass == "random" or rng.random() < 0.6]
         if rng.random() < 0.3:
-            extra_kw["extra_cmd"] = "nosymm"
+            extra_kw["extra_cmd"] = ["nosymm", "", 0][int(rng.integers(3))]
             use.append("extra_cmd")
         order = [use[i] for i in rng.permutation(len(use))]
         template = "".join(f"<<{f}>>\n{{{f}}}\n" for f in order) + "<<end>>\n"
@@ -196,7 +197,7 @@ def case_render(case):
             "spinmult": str(overrides.get("spinmult", exp["mult"])),
         }
         if "extra_cmd" in extra_kw:
-            want["extra_cmd"] = "nosymm"
+            want["extra_cmd"] = str(extra_kw["extra_cmd"])
         got = {}
         if template is None:
             lines = text.split("\n")
